@@ -226,6 +226,8 @@ class C08(Prop):
             t = line.split()
             if raw == "bad-op" or t[0] == "reenter":
                 continue
+            if t[0] == "nest" or raw == "hang":     # overlapping requests (C07's axis): not judged here, and the
+                break                               # bookkeeping below does not follow them
             if t[0] == "cfg" and len(t) in (7, 8, 9):
                 gate, enabled, thr, tmo = (t[1] if t[1] in GATES else "and"), t[2] == "1", int(t[3]), int(t[4])
                 now, prev, last_fail_at, since_clear, streak = 0, None, None, 0, 0
